@@ -55,7 +55,14 @@ func (v *legacyVisitor) VisitFunctionCall(ctx *gen.FunctionCallContext) any {
 		// we know this function but not with these params, so like an unknown function, leave it as it is
 		rewrittenFuncCall, _ = renderCall(functionName, params)
 	}
-	return rewrittenFuncCall
+
+	switch ctx.GetParent().(type) {
+	case *gen.ParseContext, *gen.FunctionParametersContext, *gen.ParenthesesContext:
+		return rewrittenFuncCall
+	}
+
+	// a function call can be the operand of an operator but what it is migrated to might not be, e.g. SUM(1, 2) * 3
+	return asOperand(rewrittenFuncCall)
 }
 
 // VisitTrue deals with the "true" literal
@@ -124,6 +131,7 @@ func (v *legacyVisitor) VisitAdditionOrSubtractionExpression(ctx *gen.AdditionOr
 		template := `datetime_add(%s, %s, "D")`
 		if op == "-" {
 			template = `datetime_add(%s, -%s, "D")`
+			arg2 = asOperand(arg2)
 		}
 
 		return fmt.Sprintf(template, arg1, arg2)
@@ -133,6 +141,7 @@ func (v *legacyVisitor) VisitAdditionOrSubtractionExpression(ctx *gen.AdditionOr
 		template := `datetime_add(%s, %s, "D")`
 		if op == "-" {
 			template = `datetime_add(%s, -%s, "D")`
+			arg2 = asOperand(arg2)
 		}
 
 		if !v.options.RawDates {
@@ -162,7 +171,7 @@ func (v *legacyVisitor) VisitAdditionOrSubtractionExpression(ctx *gen.AdditionOr
 	if op == "+" {
 		return fmt.Sprintf("legacy_add(%s, %s)", arg1, arg2)
 	}
-	return fmt.Sprintf("legacy_add(%s, -%s)", arg1, arg2)
+	return fmt.Sprintf("legacy_add(%s, -%s)", arg1, asOperand(arg2))
 }
 
 // VisitEquality deals with equality or inequality tests 5 = 5 and 5 != 5
